@@ -14,6 +14,9 @@ distinct (codec, record) observed:
                                years, fingerprint a uint64) and
                                proj_result (decode_encode c (emb_rec r)) = Some r
 
+and records the value of json_da_null_ok (the premise of C09B's JSON theorems,
+also the obligation C09B_json_da_null_ok_now) on the regenerated table,
+
 so it measures that the guards of C09B hold on every record of a real run and
 that the real codec's image lies within the modelled codec's image (what is in
 the store is a fixed point of the modelled round trip: data never nil, user
@@ -116,6 +119,17 @@ def stage(chk):
         chk.oblige("stored records of the real run are fixed points of the modelled codec (bridge_fix)", False)
         cov["model_failed"] = log_[-1500:]
         return False
+    # the premise of every JSON theorem of Properties/C09B.v, on the table just
+    # regenerated (Model/CodecBridge.v: da_null_ok_now = Proofs/CodecDefs.v:
+    # json_da_null_ok); false = the repair of D3 is gone
+    rc, out = vlib.coq_run("codecbridge_premise_%d" % os.getpid(),
+                           "From Sessions Require Import Model.Base Model.Codec Model.CodecBridge.\n"
+                           "Definition D : list N := Eval vm_compute in (if da_null_ok_now then [1%N] else [0%N]).\nPrint D.\n")
+    flag = vlib.parse_printed_list(out, "D") if rc == 0 else None
+    if flag not in ([0], [1]):
+        raise vlib.Machinery("codec bridge: da_null_ok_now could not be evaluated: %s" % out[-2000:])
+    cov["json_da_null_ok"] = bool(flag[0])
+    chk.oblige("json_da_null_ok = true on the regenerated table (premise of the JSON theorems of C09B)", bool(flag[0]))
     b = hist_common.bundle(chk.tier, chk.seed)
     if "harness_failed" in b:
         chk.oblige("stored records of the real run are fixed points of the modelled codec (bridge_fix)", False)
@@ -158,7 +172,7 @@ def stage(chk):
     ok = not bad
     chk.oblige("stored records of the real run are fixed points of the modelled codec (bridge_fix)", ok)
     cov["wall_s"] = round(time.time() - t0, 1)
-    return ok
+    return ok and cov["json_da_null_ok"]
 
 
 def replay(chk, path):
